@@ -447,6 +447,14 @@ theorem proxy_state (s : Sess) (o : ObjId) : (proxy s o).1 = s := by
     · rfl
     · split <;> rfl
 
+theorem markRead_same {sch : Schema} (s : Sess) (os : List ObjId) (attrs : List Nat) : SameKeys sch s (markRead s os attrs).1 := by
+  refine ⟨rfl, fun _ => rfl, IxEq.refl _, ?_⟩
+  intro o _
+  simp only [markRead]
+  split
+  · exact setRbits_same sch _ _
+  · exact ObjSame.refl _ _
+
 /-! ## delete and the three `_save_*_` -/
 
 theorem delete_inv {sch : Schema} {s : Sess} (hI : Inv sch s) (o : ObjId) : Inv sch (delete sch s o).1 := by
@@ -694,6 +702,7 @@ theorem step_inv {sch : Schema} {s : Sess} (hI : Inv sch s) (op : Op) (hg : load
   | saveDeleted o => exact saveDeleted_inv hI o
   | find c pk kw => exact inv_congr (find_same s c pk kw) hI
   | proxy o => simp only [proxy_state]; exact hI
+  | markRead os attrs => exact inv_congr (markRead_same s os attrs) hI
 
 theorem dbSet_n (sch : Schema) (s : Sess) (o : ObjId) (rowv : Nat → Slot) (u : Bool) : (dbSet sch s o rowv u).1.n = s.n := by
   unfold dbSet
@@ -768,6 +777,7 @@ theorem step_n_le (sch : Schema) (s : Sess) (op : Op) : s.n ≤ (step sch s op).
   | saveDeleted o => simp only [saveDeleted]; split; exact Nat.le_refl _; split <;> exact Nat.le_refl _
   | find c pk kw => exact Nat.le_of_eq (find_same (sch := sch) s c pk kw).n.symm
   | proxy o => simp only [proxy_state]; exact Nat.le_refl _
+  | markRead os attrs => exact Nat.le_refl _
 
 /-! ## histories -/
 
@@ -949,5 +959,6 @@ theorem yield_lt {sch : Schema} {s : Sess} (hI : Inv sch s) (op : Op) (x : ObjId
           simp only [Option.some.injEq] at h; subst h
           exact (hI.pk_sound k _ hg).1
         · cases h
+  | markRead os attrs => simp [markRead] at h
 
 end PonyVerif.Model.KeyIndex
